@@ -4,7 +4,7 @@ from . import c11
 KEYS = ["res", "er", "exit", "md"]
 RULE = ("generated ELF layouts as C11 with .stack sizes 0-64 KiB, symbol tables with ___exit at any index and near-miss names, "
         "argument strings over printable ASCII with runs of blanks/tabs, 0-32 words up to 200 bytes; distinct = distinct (layout, registers, image)")
-SHARD_TIMEOUT = 900
+SHARD_TIMEOUT = 2400
 nontrivial_key = c11.nontrivial_key
 
 
